@@ -341,6 +341,19 @@ def pointer_order(rep: Report, prog: Program) -> None:
                     bad.append(f"{v} in {A} = {present}: value taken={took}, counter advanced={inc}")
             rep.ob(rule, cons.fq(), f"for {e} in {norm(lp.iter)}: for {v} in {e}.nodes: next pointer entry iff {v} has no value", cons.loc(il), not bad and ctr is not None,
                    '; '.join(bad) if bad else 'first appearance over edges x attachment nodes, externals skipped: the order in which the producer lists the summed-out indices')
+    # a pointer entry taken in a loop over the declared nodes: declaration order is not first-appearance order over the edges
+    ctrs = {norm(x.target) for x in own_nodes(cons.node) if isinstance(x, ast.AugAssign)}
+
+    def takes_entry(st):
+        return isinstance(st, ast.Assign) and any(isinstance(t, ast.Subscript) for t in st.targets) and any(
+            isinstance(x, ast.Subscript) and isinstance(x.slice, ast.Name) and x.slice.id in ctrs for x in ast.walk(st.value))
+    for lp in [x for x in own_nodes(cons.node) if isinstance(x, ast.For) and isinstance(x.iter, ast.Call) and callee_last(x.iter) == 'nodes'
+               and norm(x.iter).endswith('.rhs.nodes()')]:
+        if any(takes_entry(st) for st in ast.walk(lp)):
+            found += 1
+            rep.ob(rule, cons.fq(), f"consumer takes pointer entries in `for {norm(lp.target)} in {norm(lp.iter)}`", cons.loc(lp), False,
+                   'the pointer lists the summed-out nodes by first appearance over rule.rhs.edges() x edge.nodes (the producer\'s einsum index order); '
+                   'the declaration order of rule.rhs.nodes() differs as soon as an edge touches a later-declared node first')
     rep.floor('C04-D3 consumer loop', found, 1)
     # consumer seeds the assignment with the externals (so they are skipped like the producer's outputs)
     seed = [n for n in own_nodes(cons.node) if isinstance(n, ast.Assign) and isinstance(n.value, ast.Call) and callee_last(n.value) == 'dict'
